@@ -23,11 +23,12 @@ try:
     theirs = json.load(open('/tmp/theirs_kf.json'))
 except Exception:
     theirs = {'findings': []}
-have = {f['key'] for f in ours['findings']}
+sig = lambda f: (f['key'], json.dumps(f.get('match'), sort_keys=True))
+have = {sig(f) for f in ours['findings']}
 added = []
 for f in theirs['findings']:
-    if f['key'] not in have:
-        ours['findings'].append(f); have.add(f['key']); added.append(f['key'])
+    if sig(f) not in have:
+        ours['findings'].append(f); have.add(sig(f)); added.append(f['key'])
 json.dump(ours, open('/verif/KNOWN_FINDINGS.json', 'w'), indent=1)
 print('known-findings added:', added)
 PY
